@@ -19,9 +19,12 @@ package datas
 import (
 	"context"
 
+	flatbuffers "github.com/dolthub/flatbuffers/v23/go"
+
 	"github.com/dolthub/dolt/go/gen/fb/serial"
 	"github.com/dolthub/dolt/go/store/hash"
 	"github.com/dolthub/dolt/go/store/prolly"
+	"github.com/dolthub/dolt/go/store/prolly/tree"
 	"github.com/dolthub/dolt/go/store/types"
 )
 
@@ -63,6 +66,12 @@ func verif_assert(b bool) {
 
 func verif_assume(b bool) {}
 
+// verif_sameslice(a, b): a and b are the same window of the same backing array (contracts only; the executable
+// body cannot tell two empty windows apart).
+func verif_sameslice[T any](a, b []T) bool {
+	return len(a) == len(b) && (len(a) == 0 || &a[0] == &b[0])
+}
+
 // verif_rangeidx stands for the number of completed iterations of the enclosing range loop (contracts only).
 func verif_rangeidx() int { return 0 }
 
@@ -83,6 +92,13 @@ var verif_ghost struct {
 	commitOK   bool      // the store accepted the root swap
 	ancFound   bool      // FindCommonAncestor reported an ancestor
 	anc        hash.Hash // ... namely this one
+	// commit metadata (C18)
+	cfHeight   uint64 // height most recently computed by commit_flatbuffer
+	lastHeight uint64 // result of the most recent (*serial.Commit).Height()
+	cParsedOK  bool   // the most recent TryGetRootAsCommit succeeded
+	cEditors   int    // closure editors created
+	cDiffs     int    // parent closures merged into the editor (DiffCommitClosures calls)
+	cAdds      int    // keys added to the closure editor for the parents themselves
 	// the working set inspected by the clean-branch checks
 	wsStaged  hash.Hash
 	wsWorking hash.Hash
@@ -157,4 +173,23 @@ func verif_x_Ref_TargetHash(r types.Ref) (h hash.Hash) { return r.TargetHash() }
 
 func verif_x_WriteValue(vs *types.ValueStore, ctx context.Context, v types.Value) (r types.Ref, err error) {
 	return vs.WriteValue(ctx, v)
+}
+
+// verif_heightof(c) is the height stored in commit message |c| (uninterpreted).
+func verif_heightof(c *serial.Commit) uint64 { return 0 }
+
+func verif_x_Commit_Height(c *serial.Commit) (h uint64) { return c.Height() }
+
+func verif_x_cc_Editor(c prolly.CommitClosure) (ed prolly.CommitClosureEditor) { return c.Editor() }
+
+func verif_x_DiffCommitClosures(ctx context.Context, from, to prolly.CommitClosure, cb tree.DiffFn) (err error) {
+	return prolly.DiffCommitClosures(ctx, from, to, cb)
+}
+
+func verif_x_cce_Add(wr prolly.CommitClosureEditor, ctx context.Context, key prolly.CommitClosureKey) (err error) {
+	return wr.Add(ctx, key)
+}
+
+func verif_x_TryGetRootAsCommit(buf []byte, offset flatbuffers.UOffsetT) (c *serial.Commit, err error) {
+	return serial.TryGetRootAsCommit(buf, offset)
 }
